@@ -3,6 +3,7 @@ package main
 import (
 	"fmt"
 	"go/token"
+	"go/types"
 	"sort"
 	"strings"
 
@@ -108,31 +109,41 @@ func (c *Ctx) adnlLayouts() {
 	}
 	// handshake request: key id 0:32, ephemeral public key 32:64, params hash 64:96, encrypted params 96:256
 	if f := c.mustFn(R, "liteclient", "encryptedConn.handshake"); f != nil {
+		pubF, sharedF := c.liteKeyFields()
 		c.layoutIs(R, "handshake = keyid32 | pubkey32 | params hash32 | encrypted params160", f, c.byteWrites(f), []byteField{
-			{"", "32", "copy", "hash"}, {"32", "64", "copy", "public"}, {"64", "96", "copy", "hash"}, {"96", "", "copy", ""},
+			{"", "32", "copy", "hash"}, {"32", "64", "copy", pubF}, {"64", "96", "copy", "hash"}, {"96", "", "copy", ""},
 		})
 		// key = shared[0:16] | hash[16:32] ; nonce = hash[0:4] | shared[20:32]
+		// the derivation may sit in the handshake or in a helper it calls; what a piece is cut from is decided by
+		// where the value comes from (the shared-secret field of the keys, the hash of the parameters)
 		var pieces []string
-		allInstrs(f, func(_ *ssa.BasicBlock, in ssa.Instruction) {
-			if cl, ok := in.(*ssa.Call); ok {
-				if b, ok := cl.Call.Value.(*ssa.Builtin); ok && b.Name() == "append" {
-					if s, ok := cl.Call.Args[1].(*ssa.Slice); ok {
-						what := "shared"
-						if derivesFrom(s.X, callResult(modPath+"/liteclient.params.hash"), false) {
-							what = "hash"
-						}
-						if _, isArr := arrayLen(s.X.Type()); isArr && what == "shared" && !strings.Contains(shape(s.X, 3), "shared") {
-							return
-						}
-						lo := offShape(s.Low)
-						if lo == "" {
-							lo = "0"
-						}
-						pieces = append(pieces, fmt.Sprintf("%s[%s:%s]", what, lo, offShape(s.High)))
-					}
-				}
+		for _, vi := range c.inlineView(f, 2, nil) {
+			cl, ok := vi.in.(*ssa.Call)
+			if !ok {
+				continue
 			}
-		})
+			if b, ok := cl.Call.Value.(*ssa.Builtin); !ok || b.Name() != "append" {
+				continue
+			}
+			s, ok := cl.Call.Args[1].(*ssa.Slice)
+			if !ok {
+				continue
+			}
+			what := ""
+			switch {
+			case derivesFrom(s.X, callResult(modPath+"/liteclient.params.hash"), false):
+				what = "hash"
+			case derivesFrom(s.X, fieldLoadNamed(sharedF), false):
+				what = "shared"
+			default:
+				continue
+			}
+			lo := offShape(s.Low)
+			if lo == "" {
+				lo = "0"
+			}
+			pieces = append(pieces, fmt.Sprintf("%s[%s:%s]", what, lo, offShape(s.High)))
+		}
 		got := strings.Join(pieces, " ")
 		c.check(strings.Contains(got, "shared[0:16] hash[16:32] hash[0:4] shared[20:32]"), R, "handshake key = shared[0:16]|hash[16:32], nonce = hash[0:4]|shared[20:32]", f.Pos(), got, "the handshake key/nonce derivation is "+got+"; ADNL requires key = shared[0:16]|hash[16:32], nonce = hash[0:4]|shared[20:32]")
 	}
@@ -155,8 +166,10 @@ func (c *Ctx) adnlLayouts() {
 func (c *Ctx) cipherContinuity() {
 	const R = "E10.cipher-continuity"
 	la := &lockAnalysis{c: c, funcs: c.moduleFuncs("liteclient")}
-	la.whoMayWrite(R, "liteclient.encryptedConn.cipher", map[string]string{})
-	la.whoMayWrite(R, "liteclient.encryptedConn.decipher", map[string]string{})
+	// the two stream fields by role, not by name: tx is the one encryptedConn.send runs the outgoing buffer through
+	txF, rxF := c.liteStreamFields()
+	la.whoMayWrite(R, "liteclient.encryptedConn."+txF, map[string]string{})
+	la.whoMayWrite(R, "liteclient.encryptedConn."+rxF, map[string]string{})
 	if f := c.mustFn(R, "liteclient", "newEncryptedConnection"); f != nil {
 		roles := map[string]string{}
 		allInstrs(f, func(_ *ssa.BasicBlock, in ssa.Instruction) {
@@ -165,8 +178,13 @@ func (c *Ctx) cipherContinuity() {
 				return
 			}
 			_, fn, ok := fieldOf(st.Addr)
-			if !ok || (fn != "cipher" && fn != "decipher") {
+			if !ok || (fn != txF && fn != rxF) {
 				return
+			}
+			if fn == txF {
+				fn = "cipher"
+			} else {
+				fn = "decipher"
 			}
 			if cl := callOf(stripConv(st.Val)); cl != nil && callQName(&cl.Call) == "crypto/cipher.NewCTR" {
 				key, nonce := "?", "?"
@@ -244,7 +262,7 @@ func (c *Ctx) cipherContinuity() {
 	// every ParsePacket call on an encryptedConn passes that connection's decipher; send XORs the whole buffer with cipher
 	for _, f := range c.moduleFuncs("liteclient") {
 		for _, cl := range callsTo(f, modPath+"/liteclient.ParsePacket") {
-			okv := derivesFrom(cl.Call.Args[1], fieldLoadNamed("decipher"), false)
+			okv := derivesFrom(cl.Call.Args[1], fieldLoadNamed(rxF), false)
 			c.check(okv, R, fnName(f)+" parses with the connection's decipher", cl.Pos(), "ParsePacket(_, econn.decipher)", fnName(f)+" calls ParsePacket with a cipher stream that is not the connection's persistent decipher: the CTR state would not carry across packets")
 		}
 	}
@@ -293,7 +311,7 @@ func (c *Ctx) cipherContinuity() {
 		var xor, wr *ssa.Call
 		allInstrs(f, func(_ *ssa.BasicBlock, in ssa.Instruction) {
 			if cl, ok := in.(*ssa.Call); ok && cl.Call.IsInvoke() {
-				if cl.Call.Method.Name() == "XORKeyStream" && cl.Call.Args[0] == ssa.Value(f.Params[1]) && cl.Call.Args[1] == ssa.Value(f.Params[1]) && derivesFrom(cl.Call.Value, fieldLoadNamed("cipher"), false) {
+				if cl.Call.Method.Name() == "XORKeyStream" && cl.Call.Args[0] == ssa.Value(f.Params[1]) && cl.Call.Args[1] == ssa.Value(f.Params[1]) && derivesFrom(cl.Call.Value, fieldLoadNamed(txF), false) {
 					xor = cl
 				}
 				if cl.Call.Method.Name() == "Write" && cl.Call.Args[0] == ssa.Value(f.Params[1]) {
@@ -529,4 +547,77 @@ func (c *Ctx) wireSizes(rels ...string) {
 			c.check(!failsWhenEqual, R, fnName(f)+": bytes read vs bytes wanted", bo.Pos(), "the error is on the unequal side", fnName(f)+" fails exactly when io.ReadFull delivered the number of bytes asked for: every complete frame is refused")
 		}
 	}
+}
+
+// liteStreamFields: the names of the two cipher.Stream fields of encryptedConn by role: tx is the one
+// whose XORKeyStream runs in the method that writes to the socket (send), rx the other.
+func (c *Ctx) liteStreamFields() (tx, rx string) {
+	tx, rx = "cipher", "decipher"
+	p := c.pkg("liteclient")
+	if p == nil {
+		return
+	}
+	tn, ok := p.Types.Scope().Lookup("encryptedConn").(*types.TypeName)
+	if !ok {
+		return
+	}
+	st, ok := tn.Type().Underlying().(*types.Struct)
+	if !ok {
+		return
+	}
+	var streams []string
+	for i := 0; i < st.NumFields(); i++ {
+		if strings.HasSuffix(st.Field(i).Type().String(), "crypto/cipher.Stream") {
+			streams = append(streams, st.Field(i).Name())
+		}
+	}
+	if len(streams) != 2 {
+		return
+	}
+	f := c.fn("liteclient", "encryptedConn.send")
+	if f == nil {
+		return
+	}
+	used := ""
+	allInstrs(f, func(_ *ssa.BasicBlock, in ssa.Instruction) {
+		if cl, ok := in.(*ssa.Call); ok && cl.Call.IsInvoke() && cl.Call.Method.Name() == "XORKeyStream" {
+			if _, n, ok := fieldOfLoad(cl.Call.Value); ok {
+				used = n
+			}
+		}
+	})
+	switch used {
+	case streams[0]:
+		return streams[0], streams[1]
+	case streams[1]:
+		return streams[1], streams[0]
+	}
+	return
+}
+
+// liteKeyFields: the names of the two fields of x25519Keys by role: the ephemeral public key is the one
+// filled from ed25519.GenerateKey, the shared secret the one filled from the key agreement.
+func (c *Ctx) liteKeyFields() (pub, shared string) {
+	pub, shared = "public", "shared"
+	f := c.fn("liteclient", "newKeys")
+	if f == nil {
+		return
+	}
+	allInstrs(f, func(_ *ssa.BasicBlock, in ssa.Instruction) {
+		st, ok := in.(*ssa.Store)
+		if !ok {
+			return
+		}
+		own, n, ok := fieldOf(st.Addr)
+		if !ok || !strings.HasSuffix(own, "x25519Keys") {
+			return
+		}
+		switch {
+		case derivesFrom(st.Val, callResult(modPath+"/liteclient.sharedKey", "github.com/oasisprotocol/curve25519-voi/primitives/x25519.X25519"), false):
+			shared = n
+		case derivesFrom(st.Val, callResult("crypto/ed25519.GenerateKey"), false):
+			pub = n
+		}
+	})
+	return
 }
